@@ -55,6 +55,9 @@ def run(m: Model, r: Report, tier: str) -> None:
     r.rule("R6", "enum coercion of a wire byte is lossless (no _missing_ hook that maps unknown values)", floor=2)
     r.rule("R7", "dynamic routing anchors: response id = service id + 0x40, 0x7F routed to NegativeResponse, unknown to raw", floor=4)
     r.rule("R8", "the database stores request.pdu / response.pdu through a non-truncating representation", floor=2)
+    r.rule("R9", "named fields sit at the ISO 14229-1 positions (sub-byte packing, order of equal-width neighbours, repeated groups)", floor=25)
+    from sa.codec import field_placement
+    field_placement(m, r, "R9", ca, list(reg.registered_responses()), iso14229.FIELD_PLACEMENT)
 
     classes: list[tuple[ClassInfo, tuple]] = []
     for p in reg.pairs:
@@ -175,6 +178,10 @@ def run(m: Model, r: Report, tier: str) -> None:
                     "truncated ('...') instead of what was sent/received", loc=f"{hmod.relpath}:{n.lineno}")
     if n_pdu < 2:
         raise AnalysisError(f"{ins.qualname}: expected bytes_repr(request.pdu) and bytes_repr(response.pdu), found {n_pdu}")
+    from sa.util import bytes_repr_truncates
+    why = bytes_repr_truncates(m, None)
+    r.check(why is None, "R8", "gallia.services.uds.core.utils.bytes_repr#none-is-unlimited",
+            f"with max_length=None (what the database handler passes) {why}: the stored PDU is not what was received", loc="src/gallia/services/uds/core/utils.py")
 
     r.assumptions += [
         "CPython semantics of struct.pack, int.to_bytes/from_bytes and slicing as modelled in sa/layout.py",
